@@ -403,12 +403,19 @@ def check_user_errors(F, run):
                             if q.get("k") == "MCall" and q["name"] == "map_err" and q["recv"] is c_ and q["args"] and is_user_error_wrapper(q["args"][0]):
                                 c_, j = q, j - 1
                                 continue
+                            if q.get("k") == "MCall" and q["name"] in ("map", "and_then", "inspect") and q["recv"] is c_ and "result::Result" in (q.get("def") or ""):
+                                c_, j = q, j - 1
+                                continue
                             return False
                         return False
                     ok = bool(sites) and all(propagated(x, ps) for x, ps in sites)
                     break
                 if p.get("k") == "MCall" and p["name"] == "map_err" and p["recv"] is cur and p["args"] and is_user_error_wrapper(p["args"][0]):
                     cur = p
+                    i -= 1
+                    continue
+                if p.get("k") == "MCall" and p["name"] in ("map", "and_then", "inspect") and p["recv"] is cur and "result::Result" in (p.get("def") or ""):
+                    cur = p                      # Result::map / and_then / inspect hand an Err on unchanged (`derivative(..).map(|slope| slope * dt)`)
                     i -= 1
                     continue
                 if p.get("k") == "Un" and p.get("op") == "Neg":
